@@ -92,7 +92,7 @@ def fix_patterns(e):
 
 def observe(real):
     import d42
-    ev = {"stable": False, "eval_exc": "", "eq": False, "same_repr": False, "parsed": False,
+    ev = {"stable": False, "eval_exc": "", "eq": False, "same_repr": False, "parsed": False, "denoted": [],
           "expr": {"k": "expr", "t": "none", "calls": []}}
     try:
         text = repr(real)
@@ -114,6 +114,10 @@ def observe(real):
             ev["same_repr"] = repr(rebuilt) == text
         except Exception:
             pass
+        try:
+            ev["denoted"] = [am.a_schema(rebuilt)]
+        except Exception:
+            ev["denoted"] = []
     try:
         rec = eval(text, {"schema": Facade(), "optional": Opt, "UUID": uuid.UUID, "datetime": datetime})
         ev["expr"] = a_expr(rec)
@@ -163,6 +167,7 @@ def main(chk):
         if real is None:
             continue
         ev = observe(real)
+        ev["raw"] = False
         if elsewhere is not None and ev.get("text") is not None and ev["stable"]:
             ev["stable"] = safe_repr(real) == elsewhere[n]
         ev.update({"id": len(events) + 1, "s": s})
@@ -175,12 +180,13 @@ def main(chk):
     dummy = {"t": "float", "value": [], "min": [], "max": [], "precision": []}
     for text, real in deep.real_float_schemas():
         ev = observe(real)
-        ev.update({"id": len(events) + 1, "s": dummy, "parsed": False, "expr": {"k": "expr", "t": "none", "calls": []}, "srepr": text})
+        ev.update({"id": len(events) + 1, "s": dummy, "parsed": False, "expr": {"k": "expr", "t": "none", "calls": []}, "srepr": text,
+                   "raw": True})
         events.append(ev)
         chk.count("real_float_schemas")
     chk.require(len(events) >= 1500, "fewer than 1500 schemas printed (%d)" % len(events))
     chk.require(chk.counts.get("parsed", 0) >= 0.95 * len(events), "too many texts could not be re-read")
-    slim = [{k: e[k] for k in ("id", "s", "stable", "eval_exc", "eq", "same_repr", "parsed", "expr")}
+    slim = [{k: e[k] for k in ("id", "s", "stable", "eval_exc", "eq", "same_repr", "parsed", "expr", "denoted", "raw")}
             for e in events]
     verdicts = chk.validate_events("Trace_Repr", slim)
     chk.absorb(events, verdicts, describe)
